@@ -311,6 +311,12 @@ func c07TwoParty(k *core.Case) {
 		var pc message.IKEPayloadContainer
 		sa := pc.BuildSecurityAssociation()
 		prop.ProposalNumber = 1
+		if k.Index%4 == 2 {
+			// an IKE SA rekey proposal carries the proposer's new 8-octet SPI (RFC 7296 2.18); the key derivation goes by
+			// the SPI ARGUMENTS
+			prop.SPI = k.R.Bytes(8)
+			k.Count("two_party_proposal_carries_an_spi", 1)
+		}
 		sa.Proposals = append(sa.Proposals, prop)
 		msg := message.NewMessage(k.R.U64(), 0, message.IKE_SA_INIT, false, true, 0, pc)
 		wire, err := msg.Encode()
@@ -455,7 +461,7 @@ func c07(c *core.Ctx) {
 		}
 		k.Count("colliding_secret_pairs", 1)
 	})
-	c.Require("objects_built_from_the_sa_keys_dropped_and_collected", "responder_public_value_with_leading_zero_octet", "colliding_secret_pairs", "sa_logged_before_use", "offers_prepared_from_returned_transforms_before", "two_party_runs", "two_party_shared_secret_with_leading_zeros", "held_sa_keys_rechecked", "same_object_keyed_twice")
+	c.Require("two_party_proposal_carries_an_spi", "objects_built_from_the_sa_keys_dropped_and_collected", "responder_public_value_with_leading_zero_octet", "colliding_secret_pairs", "sa_logged_before_use", "offers_prepared_from_returned_transforms_before", "two_party_runs", "two_party_shared_secret_with_leading_zeros", "held_sa_keys_rechecked", "same_object_keyed_twice")
 }
 
 // ---------------------------------------------------------------------------
@@ -552,6 +558,11 @@ func c08History(k *core.Case) {
 	if err != nil {
 		k.Violate("setup", "NewKey failed", err.Error(), nil)
 		return
+	}
+	if k.Index%5 == 3 {
+		// hand-keyed the way the library's own tests do it: the keyed PRF object is installed, the SK_d field stays empty
+		long.SK_d = nil
+		k.Count("hand_keyed_ike_sa_with_empty_SK_d_field", 1)
 	}
 	steps := k.R.Pick(5, 20, 100)
 	type heldChild struct {
@@ -710,7 +721,7 @@ func c08(c *core.Ctx) {
 		k.Count("equal_keyed_objects_in_parallel", 1)
 		k.Distinct("parallel-equal-keys|" + s.Name())
 	})
-	c.Require("equal_keyed_objects_in_parallel", "ike_sa_rekeyed_in_history", "earlier_child_sas_rechecked", "child_object_from_proposal_constructor", "child_object_copied_from_a_template")
+	c.Require("hand_keyed_ike_sa_with_empty_SK_d_field", "equal_keyed_objects_in_parallel", "ike_sa_rekeyed_in_history", "earlier_child_sas_rechecked", "child_object_from_proposal_constructor", "child_object_copied_from_a_template")
 }
 
 // ---------------------------------------------------------------------------
@@ -719,6 +730,7 @@ func c08(c *core.Ctx) {
 func c16One(k *core.Case, ikl, ckl int) {
 	noiseFor(k)
 	ik, ck := k.R.Bytes(ikl), k.R.Bytes(ckl)
+	ikRef, ckRef := append([]byte{}, ik...), append([]byte{}, ck...) // private copies for the reference
 	var id []byte
 	switch k.R.Intn(6) {
 	case 0:
@@ -731,6 +743,30 @@ func c16One(k *core.Case, ikl, ckl int) {
 		id = k.R.Bytes(k.R.Range(0, 255))
 	}
 	w := M{"ik": core.Hex(ik), "ck": core.Hex(ck), "identity": core.Hex(id)}
+	if k.Index%3 == 1 && ikl > 0 && ckl > 0 {
+		// both keys are views of ONE record buffer (tag|IK'|tag|CK'|..., CK' first, adjacent, a few octets apart): the
+		// reference below works on the private copies made here
+		ikv, ckv := append([]byte{}, ik...), append([]byte{}, ck...)
+		gap := k.R.Pick(0, 1, 2, 3, ckl-1, ckl, ckl+1, ikl)
+		if gap < 0 {
+			gap = 0
+		}
+		rec := make([]byte, 0, 4+ikl+gap+ckl+80)
+		rec = append(rec, 0x10, byte(ikl))
+		if k.Index%2 == 1 {
+			rec = append(rec, ckv...)
+			rec = append(rec, make([]byte, gap)...)
+			rec = append(rec, ikv...)
+			ck, ik = rec[2:2+ckl], rec[2+ckl+gap:2+ckl+gap+ikl]
+		} else {
+			rec = append(rec, ikv...)
+			rec = append(rec, make([]byte, gap)...)
+			rec = append(rec, ckv...)
+			ik, ck = rec[2:2+ikl], rec[2+ikl+gap:2+ikl+gap+ckl]
+		}
+		w["layout"] = fmt.Sprintf("IK' and CK' are views of one record, %d octets apart", gap)
+		k.Count("keys_as_views_of_one_record", 1)
+	}
 	var kencr, kaut, kre, msk, emsk []byte
 	var err error
 	k.Eval(1)
@@ -751,7 +787,7 @@ func c16One(k *core.Case, ikl, ckl int) {
 		k.Violate("error", "prf'-error: "+classifyErr(err), errStr(err), w)
 		return
 	}
-	mk := ref.PrfPrime(append(append([]byte{}, ik...), ck...), append([]byte("EAP-AKA'"), id...), 208)
+	mk := ref.PrfPrime(append(append([]byte{}, ikRef...), ckRef...), append([]byte("EAP-AKA'"), id...), 208)
 	for _, x := range []struct {
 		n      string
 		g      []byte
@@ -900,7 +936,7 @@ func c16(c *core.Ctx) {
 		k.Count("text_shaped_keys_derived", 1)
 		k.Distinct(fmt.Sprintf("textkeys|%d|%d", ikl, ckl))
 	})
-	c.Require("colliding_key_pairs_derived", "text_shaped_keys_derived")
+	c.Require("colliding_key_pairs_derived", "text_shaped_keys_derived", "keys_as_views_of_one_record")
 	c.Family("sampled", c.N(40000, 60000000), func(k *core.Case) {
 		if k.R.Chance(2, 3) {
 			c16One(k, 16, 16)
